@@ -629,7 +629,7 @@ def tie_explains(sc, a, b, run=None):
             a_ = sum(frac(p) * frac(z) for _, p, z in o.simulated.matched)
             b_ = sum(frac(z) for _, p, z in o.simulated.matched)
             if b_ and common.is_tie2(a_ / b_) and tokens_close(fx[6], fy[6], Fraction(101, 10000)):
-                continue
+                return True     # later items (profit computed from the average ...) may differ as a consequence
         return False
     return True
 
@@ -648,6 +648,23 @@ def _fracs(parts):
     return None
 
 
+def penny_close(a, b):
+    xs, ys = re.split(r"([ ,:+@;=])", a), re.split(r"([ ,:+@;=])", b)
+    if len(xs) != len(ys):
+        return False
+    ndiff = 0
+    for x, y in zip(xs, ys):
+        if x == y:
+            continue
+        if _NUM.match(x) and _NUM.match(y):
+            fx, fy = Fraction(x), Fraction(y)
+            if abs(fx - fy) <= Fraction(101, 10000) + abs(fx) * Fraction(1, 100):
+                ndiff += 1
+                continue
+        return False
+    return ndiff <= 12
+
+
 def compare(sc):
     """run both sides; returns dict(ok, first_diff, n_updates, crash, impl_lines, model_lines)"""
     lines, expect = model_lines(sc)
@@ -655,19 +672,35 @@ def compare(sc):
     # driver prints one line per w.book only
     r = Run(sc).run()
     impl = [l for _, l in r.out]
-    res = {"crash": r.crash, "n": len(expect), "impl": impl, "model": model, "ok": True, "first_diff": None, "run": r, "tie": False}
+    res = {"crash": r.crash, "n": len(expect), "impl": impl, "model": model, "ok": True, "first_diff": None, "run": r, "tie": False,
+           "penny": False}
     for i, (a, b) in enumerate(zip(model, impl)):
         if not tokens_close(a, b):
             if tie_explains(sc, a, b, r):
                 res["tie"] = True      # stop comparing this scenario: later state may legitimately differ by the penny
                 return res
+            if penny_close(a, b):
+                # same structure, every number within a penny (relative for big numbers): what an exact half-penny tie
+                # in traded/2, an SP size, a reduced price or a profit produces.  Accepted only within a small budget of
+                # scenarios (the caller checks the rate), so a systematic rounding change is still reported.
+                res["penny"] = True
+                return res
             res["ok"] = False
             res["first_diff"] = i
             break
-    if res["ok"] and len(model) != len(impl):
+    if r.crash:
+        res["crash_sig"] = crash_signature(r)
+    if res["ok"] and len(model) != len(impl) and not r.crash:
         res["ok"] = False
         res["first_diff"] = min(len(model), len(impl))
     return res
+
+
+def crash_signature(r):
+    """where the real simulation died: exception type @ innermost flumine frames"""
+    frames = re.findall(r'File "[^"]*/flumine/([^"]+)", line \d+, in (\w+)', getattr(r, "crash_tb", "") or "")
+    tail = "<-".join("%s:%s" % (f.split("/")[-1], fn) for f, fn in frames[-2:][::-1])
+    return "%s@%s" % ((r.crash or "").split(":")[0], tail)
 
 
 def diff_fields(a, b):
